@@ -282,6 +282,58 @@ V("f-vis-duplicate-signature", "fire", X_PROPS, MV, "        if len(signature) !
 V("f-vis-reserved-name", "fire", X_PROPS, MV, "        if \"Top\" in signature:\n            raise ValueError(\"Top is not an allowed variable name\")\n", "")
 V("f-vis-list-dropped", "fire", X_PROPS, MV, "            return [c] + self.visit(ctx.condition())\n", "            return self.visit(ctx.condition())\n")
 
+V("s-wr-eof-form", "silent", X_PROPS, WR, "    if stream.LA(1) != Token.EOF:\n", "    if not stream.LA(1) == Token.EOF:\n")
+V("s-wr-listener-local", "silent", X_PROPS, WR, "    parser.removeErrorListeners()\n    parser.addErrorListener(_ThrowingErrorListener())\n\n    tree = parser.ckbs()",
+  "    parser.removeErrorListeners()\n    listener = _ThrowingErrorListener()\n    parser.addErrorListener(listener)\n\n    tree = parser.ckbs()")
+V("f-wr-eof-check-dropped", "fire", X_PROPS, WR, "    if stream.LA(1) != Token.EOF:\n        raise Exception(\n            f\"Syntax error: unexpected input after belief base: '{stream.LT(1).text}'\"\n        )\n", "")
+V("f-wr-formula-eof-check-dropped", "fire", X_PROPS, WR, "    if tokens.LA(1) != Token.EOF:\n        raise Exception(\n            f\"Syntax error: unexpected input after formula: '{tokens.LT(1).text}'\"\n        )\n", "")
+V("f-wr-parser-listener-after", "fire", X_PROPS, WR, "    parser.removeErrorListeners()\n    parser.addErrorListener(_ThrowingErrorListener())\n\n    tree = parser.ckbs()\n",
+  "    parser.removeErrorListeners()\n\n    tree = parser.ckbs()\n    parser.addErrorListener(_ThrowingErrorListener())\n")
+V("f-wr-default-listener-kept", "fire", X_PROPS, WR, "    lexer.removeErrorListeners()\n    lexer.addErrorListener(_ThrowingErrorListener())\n    tokens = CommonTokenStream(lexer)", "    tokens = CommonTokenStream(lexer)")
+V("f-wr-eof-wrong-lookahead", "fire", X_PROPS, WR, "    if stream.LA(1) != Token.EOF:\n", "    if stream.LA(2) != Token.EOF:\n")
+
+# ---------------------------------------------------------------------------------- System Z / c-representation ranking objects
+ZR_PROPS = ["C16"]
+V("s-zr-else-dropped", "silent", ZR_PROPS, PO, "            if partition_index == 0:\n                return 0\n            else:\n                return self._rec_z_rank(solver, partition_index - 1)\n        else:\n            return partition_index + 1\n",
+  "            if partition_index == 0:\n                return 0\n            return self._rec_z_rank(solver, partition_index - 1)\n        return partition_index + 1\n")
+V("s-zr-else-added", "silent", ZR_PROPS, PO, "            if partition_index == 0:\n                return 0\n            return self._rec_z_rank(solver, partition_index - 1)\n        return partition_index + 1\n",
+  "            if partition_index == 0:\n                return 0\n            else:\n                return self._rec_z_rank(solver, partition_index - 1)\n        else:\n            return partition_index + 1\n")
+V("s-zr-material", "silent", ZR_PROPS, PO, "        [solver.add_assertion(Not(c.make_A_then_not_B())) for c in part]\n", "        [solver.add_assertion(c.make_not_A_or_B()) for c in part]\n", index=1)
+V("s-zr-cache-test", "silent", ZR_PROPS, PO, "        if force_calculation or self.ranks[world] is None:\n            self.ranks[world] = self.z_part2ocf(world)\n", "        if self.ranks[world] is None or force_calculation:\n            self.ranks[world] = self.z_part2ocf(world)\n")
+V("f-zr-rank-off-by-one", "fire", ZR_PROPS, PO, "            return self._rec_z_rank(solver, partition_index - 1)\n        return partition_index + 1\n", "            return self._rec_z_rank(solver, partition_index - 1)\n        return partition_index\n")
+V("f-zr-rank-off-by-one-base", "fire", ZR_PROPS, PO, "        else:\n            return partition_index + 1\n", "        else:\n            return partition_index\n")
+V("f-zr-start", "fire", ZR_PROPS, PO, "        return self._rec_z_rank(solver, len(self._z_partition) - 1)\n", "        return self._rec_z_rank(solver, len(self._z_partition) - 2)\n")
+V("f-zr-layer-formula", "fire", ZR_PROPS, PO, "        [solver.add_assertion(Not(c.make_A_then_not_B())) for c in part]\n", "        [solver.add_assertion(c.make_A_then_B()) for c in part]\n", index=1)
+V("f-zr-bottom-rank", "fire", ZR_PROPS, PO, "            if partition_index == 0:\n                return 0\n", "            if partition_index == 0:\n                return 1\n", index=1)
+V("f-zr-cache-ignored", "fire", ZR_PROPS, PO, "        if force_calculation or self.ranks[world] is None:\n            self.ranks[world] = self.z_part2ocf(world)\n", "        if force_calculation and self.ranks[world] is None:\n            self.ranks[world] = self.z_part2ocf(world)\n")
+V("f-zr-no-descent", "fire", ZR_PROPS, PO, "            return self._rec_z_rank(solver, partition_index - 1)\n        return partition_index + 1\n", "            return self._rec_z_rank(solver, partition_index)\n        return partition_index + 1\n")
+CR_PROPS = ["C17"]
+V("s-cr-solver-per-cond", "silent", CR_PROPS, PO, "            for sym in world_symbols:\n                solver.add_assertion(sym)\n", "            [solver.add_assertion(sym) for sym in world_symbols]\n", index=1)
+V("s-cr-aug-expanded", "silent", CR_PROPS, PO, "                rank += self._impacts[position]\n", "                rank = rank + self._impacts[position]\n", index=1)
+V("f-cr-key-index", "fire", CR_PROPS, PO, "        for position, cond in enumerate(self.conditionals.values()):\n            solver = Solver(name=\"z3\")\n", "        for position, cond in self.conditionals.items():\n            solver = Solver(name=\"z3\")\n", index=1)
+V("f-cr-verification", "fire", CR_PROPS, PO, "            solver.add_assertion(cond.make_A_then_not_B())\n            if solver.solve():\n                rank += self._impacts[position]", "            solver.add_assertion(cond.make_A_then_B())\n            if solver.solve():\n                rank += self._impacts[position]", index=1)
+V("f-cr-polarity", "fire", CR_PROPS, PO, "            if solver.solve():\n                rank += self._impacts[position]\n", "            if not solver.solve():\n                rank += self._impacts[position]\n", index=1)
+V("f-cr-off-by-one", "fire", CR_PROPS, PO, "                rank += self._impacts[position]\n", "                rank += self._impacts[position - 1]\n", index=1)
+V("f-cr-world-dropped", "fire", CR_PROPS, PO, "            for sym in world_symbols:\n                solver.add_assertion(sym)\n", "", index=1)
+
+# ---------------------------------------------------------------------------------- persistence (C20)
+S_PROPS = ["C20"]
+V("s-save-suffix-local", "silent", S_PROPS, PO, "        if path.suffix.lower() == \".json\":\n            target_fmt = \"json\"\n        elif path.suffix.lower() in {\".pkl\", \".pickle\"}:\n",
+  "        suffix = path.suffix.lower()\n        if suffix == \".json\":\n            target_fmt = \"json\"\n        elif suffix in {\".pkl\", \".pickle\"}:\n")
+V("s-save-restore-getattr", "silent", S_PROPS, PO, "            for attr, value in non_picklable_backups.items():\n                setattr(self, attr, value)\n", "            for attr in non_picklable_backups:\n                setattr(self, attr, non_picklable_backups[attr])\n")
+V("f-save-no-finally", "fire", S_PROPS, PO, "        try:\n            with path.open(\"wb\") as fd:\n                pickle.dump(self, fd, protocol=protocol)\n        finally:\n            # Restore all non-picklable objects\n            for attr, value in non_picklable_backups.items():\n                setattr(self, attr, value)\n",
+  "        with path.open(\"wb\") as fd:\n            pickle.dump(self, fd, protocol=protocol)\n        for attr, value in non_picklable_backups.items():\n            setattr(self, attr, value)\n")
+V("f-save-restore-partial", "fire", S_PROPS, PO, "            for attr, value in non_picklable_backups.items():\n                setattr(self, attr, value)\n", "            for attr, value in list(non_picklable_backups.items())[:1]:\n                setattr(self, attr, value)\n")
+V("s-meta-load-suffix", "silent", S_PROPS, PO, "        if suffix == \".json\":\n            data = json.loads(path.read_text())\n", "        if suffix == \".jsn\":\n            data = json.loads(path.read_text())\n",
+  note="a .json file then takes the content-sniffing branch, which reads JSON first: the round trip is unchanged")
+V("s-meta-save-default", "silent", S_PROPS, PO, "        else:\n            target_fmt = fmt\n\n        if target_fmt == \"pickle\":\n            with path.open(\"wb\") as fd:\n                pickle.dump(self._metadata, fd)",
+  "        else:\n            target_fmt = \"pickle\" if fmt == \"json\" else \"json\"\n\n        if target_fmt == \"pickle\":\n            with path.open(\"wb\") as fd:\n                pickle.dump(self._metadata, fd)",
+  note="for names without a telling suffix the loader sniffs the content, so either format round-trips")
+V("f-meta-load-no-fallback", "fire", S_PROPS, PO, "            try:\n                data = json.loads(raw)\n            except ValueError:\n                data = pickle.loads(raw)\n", "            data = pickle.loads(raw)\n")
+V("s-impacts-negative-accepted", "silent", S_PROPS, PO, "        if any(x < 0 for x in impacts):\n            raise ValueError(\"Impact values must be non-negative\")\n", "",
+  note="C20 is about round trips; accepting more vectors does not break one")
+V("f-impacts-zero-rejected", "fire", S_PROPS, PO, "        if any(x < 0 for x in impacts):\n", "        if any(x <= 0 for x in impacts):\n")
+
 
 def main():
     hv = os.path.join(HERE, "harvested.json")
